@@ -150,4 +150,82 @@ func pairOnSuccessPaths(c *Check, rule string, fns []*ssa.Function, what string,
 	return n
 }
 
+// lockPairs: for every non-deferred sync Lock/RLock call in fns, each path to a
+// return passes the matching Unlock on the same mutex expression (or a deferred
+// Unlock is registered). A lock left held on one exit blocks every later
+// acquirer: the compile never terminates.
+func lockPairs(c *Check, rule string, fns map[*ssa.Function]bool) int {
+	p := c.P
+	n := 0
+	var list []*ssa.Function
+	for f := range fns {
+		list = append(list, f)
+	}
+	sort.Slice(list, func(i, j int) bool { return fnName(list[i]) < fnName(list[j]) })
+	mutexCall := func(i ssa.Instruction, names ...string) (string, bool) {
+		cl, ok := i.(ssa.CallInstruction)
+		if !ok {
+			return "", false
+		}
+		o := calleeObj(cl)
+		if o == nil || o.Pkg() == nil || o.Pkg().Path() != "sync" || len(cl.Common().Args) == 0 {
+			return "", false
+		}
+		for _, nm := range names {
+			if o.Name() == nm {
+				return exprKey(cl.Common().Args[0], 0), true
+			}
+		}
+		return "", false
+	}
+	for _, f := range list {
+		if p.isGeneratedFile(p.fnFile(f)) {
+			continue
+		}
+		eachInstr(f, func(_ *ssa.BasicBlock, i ssa.Instruction) {
+			if _, isDefer := i.(*ssa.Defer); isDefer {
+				return
+			}
+			mu, ok := mutexCall(i, "Lock", "RLock")
+			if !ok {
+				return
+			}
+			n++
+			key := fmt.Sprintf("%s|lock %s released on all paths", fnName(f), clipKey(mu))
+			deferred := false
+			eachInstr(f, func(_ *ssa.BasicBlock, j ssa.Instruction) {
+				if d, isDefer := j.(*ssa.Defer); isDefer {
+					if m2, ok := mutexCall(d, "Unlock", "RUnlock"); ok && m2 == mu {
+						deferred = true
+					}
+				}
+			})
+			if deferred {
+				c.Okf(rule, key, p.pos(i.Pos()), "a deferred unlock of the same mutex covers every exit")
+				return
+			}
+			off := func(j ssa.Instruction) bool {
+				if _, isDefer := j.(*ssa.Defer); isDefer {
+					return false
+				}
+				m2, ok := mutexCall(j, "Unlock", "RUnlock")
+				return ok && m2 == mu
+			}
+			if ret, bad := reachAvoiding(i, isReturn, off); bad {
+				c.Flagf(rule, key, p.pos(i.Pos()), "a path from this lock reaches the return at %s without unlocking: every later acquirer blocks forever and the command never ends", p.pos(ret.Pos()))
+			} else {
+				c.Okf(rule, key, p.pos(i.Pos()), "every path from the lock to a return passes the unlock of the same mutex")
+			}
+		})
+	}
+	return n
+}
+
+func clipKey(s string) string {
+	if len(s) > 40 {
+		return s[:40]
+	}
+	return s
+}
+
 var _ = token.NoPos
